@@ -58,7 +58,11 @@ impl Check for C09 {
     }
     fn generate(&self, rng: &mut Prng, _tier: Tier, idx: u64) -> Value {
         let all = ops::all_ops();
-        let op = &all[(idx as usize) % all.len()];
+        let mut op = all[(idx as usize) % all.len()].clone();
+        if op.ends_with("mul_by_constant") && (op.starts_with("ec.k256") || op.starts_with("ec.bls")) && (idx / all.len() as u64) % 4 != 0 {
+            op = op.replace("mul_by_constant", "double");
+        }
+        let op = &op;
         let case = ops::gen_case(rng, op);
         let inner = opcheck::Scn { case, fault_seed: rng.u64(), n_plans: 4, only: None };
         serde_json::to_value(Scn { inner, real: idx % 12 == 0 }).unwrap()
